@@ -1,6 +1,7 @@
 SPECIFICATION Spec
 CONSTANTS Depth = 2
  MaxSize = 7
+ NestSize = 5
  CoreSize = 4
 INVARIANT TermOK
 INVARIANT NonVacuous
